@@ -75,8 +75,16 @@ fn run_to_end<D: SimData>(d: &mut D, entry: usize, j0: usize, input: &Val, limit
                 status = "end".into();
                 break;
             }
-            StepResult::Err { .. } => {
-                status = if r.is_store_full() { "err:store-full".into() } else { "err".into() };
+            StepResult::Err { ref msg, .. } => {
+                // a stack-discipline failure (the program consumed more operands / inputs than it produced) is C06's
+                // subject: such a program reads whatever lies beneath it, so its behaviour is not comparable
+                status = if r.is_store_full() {
+                    "err:store-full".into()
+                } else if crate::c06::is_underflow(msg) {
+                    "err:underflow".into()
+                } else {
+                    "err".into()
+                };
                 break;
             }
             StepResult::Panic(p) => {
@@ -424,6 +432,11 @@ fn execute_in<D: SimData>(sc: &Sc20) -> Outcome {
                     out.count("f1_store_full_fired", 1);
                     out.probe("store-full-during-run");
                     cleanup(&mut d, true);
+                } else if solo_run.status == "err:underflow" {
+                    // alone, the tenant runs out of operands (an unbalanced program, e.g. one without any token): in a
+                    // shared object it may find someone's leftovers instead. No behavioural verdict; N1 / N2 still apply
+                    out.probe("solo-run-underflows");
+                    cleanup(&mut d, true);
                 } else if solo_run.status == "budget" || r.status == "budget" {
                     out.probe("solo-run-over-budget");
                     cleanup(&mut d, true);
@@ -524,6 +537,11 @@ fn gen_tenant(rng: &mut Rng, keys: &mut Vec<String>) -> Tenant {
         let (p, input) = g.toplevel_loop(budget.max(8));
         let src = g.print(&p);
         return Tenant { src, input };
+    }
+    if g.rng.chance(1, 40) {
+        // a tenant without any instruction of its own: no tokens, only blanks, or only an annotation
+        let src = g.rng.pick(&["", "  ", "@@ nothing here", "@note"]).to_string();
+        return Tenant { src, input: Val::Unit };
     }
     let p = g.program();
     let src = g.print(&p);
